@@ -9,12 +9,14 @@ import (
 	"errors"
 	"fmt"
 	"io"
+	"math"
 	"math/rand"
 	"runtime"
 	"testing/iotest"
 	"time"
 
 	"github.com/go-logr/logr"
+	"github.com/pckhoi/meow"
 	"github.com/wrgl/wrgl/pkg/api/utils"
 	"github.com/wrgl/wrgl/pkg/encoding"
 	"github.com/wrgl/wrgl/pkg/encoding/packfile"
@@ -141,6 +143,9 @@ func decodeKind(kind string, r io.Reader) (interface{}, error) {
 			return nil, err
 		}
 		return map[string]interface{}{"columns": len(tp.Columns), "rows": tp.RowsCount}, nil
+	case "strlist-reuse", "strlist-bytes", "strlist-bytes-reuse", "uintlist-reuse", "floatlist", "floatlist-reuse",
+		"rowstream", "rowstream-reuse", "rowstream-bytes", "rowstream-bytes-reuse":
+		return c17DecodeOption(kind, r)
 	case "validateblock":
 		b, _ := io.ReadAll(r)
 		if err := objects.ValidateBlockBytes(b); err != nil {
@@ -356,6 +361,101 @@ func c17Emit(ctx *Ctx, in *c17Input, tags ...string) {
 	in.PerByte, in.Slack = 256, 8<<20
 	res := c17Run(in)
 	ctx.Emit("hostile", in, res, true, tags...)
+	// the same bytes through the other entry points / constructor options of the same decoder
+	for _, k := range c17Variants[in.Kind] {
+		v := &c17Input{Kind: k, Bytes: in.Bytes, PerByte: in.PerByte, Slack: in.Slack}
+		vt := append([]string{}, tags...)
+		for i, t := range vt {
+			if strings.HasPrefix(t, "kind=") {
+				vt[i] = "kind=" + k
+			}
+		}
+		ctx.Emit("hostile", v, c17Run(v), true, append(vt, "decoder-option")...)
+	}
+}
+
+// c17Variants: the decoders that take a constructor option (reuseRecords) or have a second entry point
+// for the same encoding (the raw-row reader ReadBytes; the float list shares the uint list's framing)
+// are offered every hostile byte string that their default form is offered.
+var c17Variants = map[string][]string{
+	"strlist":  {"strlist-reuse", "strlist-bytes", "strlist-bytes-reuse"},
+	"uintlist": {"uintlist-reuse", "floatlist", "floatlist-reuse"},
+}
+
+// c17DecodeOption decodes with the decoders' other constructor option / entry point. The "rowstream"
+// kinds read a sequence of rows with ONE decoder until end of stream (what the sorter does with a
+// spill file and the block indexer with a block's rows).
+func c17DecodeOption(kind string, r io.Reader) (interface{}, error) {
+	reuse := strings.HasSuffix(kind, "-reuse")
+	switch strings.TrimSuffix(kind, "-reuse") {
+	case "strlist":
+		_, row, err := objects.NewStrListDecoder(reuse).Read(r)
+		if err != nil {
+			return nil, err
+		}
+		return hxRow(row), nil
+	case "strlist-bytes":
+		n, b, err := objects.NewStrListDecoder(reuse).ReadBytes(r)
+		if err != nil {
+			return nil, err
+		}
+		if n != len(b) {
+			return nil, fmt.Errorf("ReadBytes: n=%d but %d bytes", n, len(b))
+		}
+		return hx(b), nil
+	case "uintlist":
+		_, l, err := objects.NewUintListDecoder(reuse).Read(r)
+		if err != nil {
+			return nil, err
+		}
+		if l == nil {
+			l = []uint32{}
+		}
+		return l, nil
+	case "floatlist":
+		_, l, err := objects.NewFloatListDecoder(reuse).Read(r)
+		if err != nil {
+			return nil, err
+		}
+		out := []string{}
+		for _, f := range l {
+			out = append(out, fmt.Sprintf("%016x", math.Float64bits(f)))
+		}
+		return out, nil
+	case "rowstream":
+		dec := objects.NewStrListDecoder(reuse)
+		out := [][]string{}
+		for {
+			_, row, err := dec.Read(r)
+			if err == io.EOF {
+				return out, nil
+			}
+			if err != nil {
+				return nil, err
+			}
+			out = append(out, hxRow(row))
+			if len(out) > 100000 {
+				return nil, fmt.Errorf("too many rows")
+			}
+		}
+	case "rowstream-bytes":
+		dec := objects.NewStrListDecoder(reuse)
+		out := []string{}
+		for {
+			n, b, err := dec.ReadBytes(r)
+			if errors.Is(err, io.EOF) && n == 0 {
+				return out, nil
+			}
+			if err != nil {
+				return nil, err
+			}
+			out = append(out, hx(b)) // hx copies: with reuseRecords the slice is the decoder's buffer
+			if len(out) > 100000 {
+				return nil, fmt.Errorf("too many rows")
+			}
+		}
+	}
+	return nil, fmt.Errorf("unknown kind")
 }
 
 func runC17(ctx *Ctx) {
@@ -488,11 +588,76 @@ func c17Receive(ctx *Ctx) {
 			}
 		}
 	}
+	c17ReceiveRun(ctx, b, csum, nil, "mut="+how)
+	c17ReceiveMissingParent(ctx, src, tsum, csum, cb.Bytes())
+}
+
+// c17ReceiveMissingParent: well-formed packfiles whose commit objects cannot be accepted because a
+// parent is neither in the destination nor earlier in the packfile (a reply that was cut, reordered,
+// or made up). Chosen by the case index: 0 a commit whose only parent is absent; 1 a merge commit whose
+// first parent the destination already has and whose second parent is absent; 2 a child sent before its
+// parent. The table and its blocks are there in every variant, so the parent is the only reason to
+// refuse; whatever the receiver answers, no stored commit may lack a parent afterwards.
+func c17ReceiveMissingParent(ctx *Ctx, src *MemStore, tsum, rootSum, rootBytes []byte) {
+	r := ctx.R
+	variant := ctx.Idx % 3
+	absent := []byte(genBytes(r, 16))
+	child := &objects.Commit{Table: tsum, AuthorName: "h", AuthorEmail: "h@h", Message: "child", Time: time.Unix(1700000100, 0).UTC()}
+	switch variant {
+	case 0:
+		child.Parents = [][]byte{absent}
+	case 1:
+		child.Parents = [][]byte{rootSum, absent}
+	default:
+		child.Parents = [][]byte{rootSum}
+	}
+	chb := newBuf()
+	if _, err := child.WriteTo(chb); err != nil {
+		return
+	}
+	tbl, err := objects.GetTable(src, tsum)
+	if err != nil {
+		return
+	}
+	traw, err := src.Get(append([]byte("tbl/"), tsum...))
+	if err != nil {
+		return
+	}
+	pb := newBuf()
+	pw, err := packfile.NewPackfileWriter(pb)
+	if err != nil {
+		return
+	}
+	var pre *MemStore
+	if variant == 1 {
+		// the destination already holds the root commit with its table
+		pre = c06CopyStore(src)
+	} else {
+		for _, bs := range tbl.Blocks {
+			if raw, err := src.Get(append([]byte("blk/"), bs...)); err == nil {
+				pw.WriteObject(packfile.ObjectBlock, raw)
+			}
+		}
+		pw.WriteObject(packfile.ObjectTable, traw)
+	}
+	pw.WriteObject(packfile.ObjectCommit, chb.Bytes())
+	if variant == 2 {
+		pw.WriteObject(packfile.ObjectCommit, rootBytes)
+	}
+	sumArr := meow.Checksum(0, chb.Bytes())
+	c17ReceiveRun(ctx, pb.Bytes(), sumArr[:], pre, "mut=commit-missing-parent", fmt.Sprintf("missing-parent-variant=%d", variant))
+}
+
+// c17ReceiveRun feeds the packfile bytes to an ObjectReceiver over dst (a fresh store when nil) and
+// reports the outcome, the allocation and what is left in the destination.
+func c17ReceiveRun(ctx *Ctx, b []byte, csum []byte, dst *MemStore, tags ...string) {
 	in := &c17RecvInput{Bytes: hx(b), PerByte: 512, Slack: 16 << 20}
 	var ms1, ms2 runtime.MemStats
 	runtime.GC()
 	runtime.ReadMemStats(&ms1)
-	dst := NewMemStore()
+	if dst == nil {
+		dst = NewMemStore()
+	}
 	res := Guard(func() Res {
 		pr, err := packfile.NewPackfileReader(io.NopCloser(bytes.NewReader(b)))
 		if err != nil {
@@ -539,7 +704,7 @@ func c17Receive(ctx *Ctx) {
 		}
 	}
 	res["invalidStored"] = invalid
-	ctx.Emit("receive", in, res, true, "mut="+how)
+	ctx.Emit("receive", in, res, true, tags...)
 }
 
 func mustCommit(db objects.Store, sum []byte) *objects.Commit {
@@ -674,6 +839,7 @@ func runC18(ctx *Ctx) {
 		in.EOFWith = append(in.EOFWith, r.Intn(2) == 0)
 	}
 	ctx.Emit("chunk", in, c18Run(in), len(valid) > 8, "kind="+kind)
+	c18Extra(ctx, in)
 }
 
 func corpusC18(ctx *Ctx, op string, raw json.RawMessage) {
